@@ -3664,9 +3664,10 @@ func (c *Call) format(signed bool) string {
 
 	// Quote the function name if it would not lex as a bare identifier
 	// (distinct is the one keyword the parser accepts in front of a
-	// parenthesis).
+	// parenthesis). An empty name is written as "": without it the
+	// arguments would read as a parenthesised expression.
 	name := c.Name
-	if (name != "distinct" || signed) && IdentNeedsQuotes(name) {
+	if name == "" || ((name != "distinct" || signed) && IdentNeedsQuotes(name)) {
 		name = QuoteIdent(name)
 	}
 
